@@ -119,7 +119,14 @@ impl<T> Receiver<T> {
             {
                 unreachable!()
             }
-            Err(_) if self.rx.is_abandoned() => Err(ChannelClosed),
+            Err(_) if self.rx.is_abandoned() => {
+                // The producer may have pushed its last commands and gone away between the failed
+                // pop above and the abandoned check: look again before declaring the channel closed.
+                match self.rx.pop() {
+                    Ok(val) => Ok(Some(val)),
+                    Err(_) => Err(ChannelClosed),
+                }
+            }
             Err(_) => Ok(None),
         }
     }
